@@ -292,9 +292,9 @@ func c01Run(w *core.W) {
 	// first operation's operand carries, the second operation must not see or disturb the first one's result.
 	w.Family("F7-one-value-two-uses")
 	{
-		defs := []string{"id = (x) -> x", "sq = (n) -> {\n  r = []\n  for i <- fromto(0, n) r = r + [i]\n  r\n}"}
+		defs := []string{"id = (x) -> x", "gi = 2", "sq = (n) -> {\n  r = []\n  for i <- fromto(0, n) r = r + [i]\n  r\n}"}
 		arrSrc := []string{"[1, 2, 3]", "[1, 2, 3] + [4]", "[1, 2] + [3] + [4]", "[1, 2, 3, 4][0:3]", "([1, 2, 3] + [4, 5])[0:4]",
-			"([1, 2, 3] + [4, 5])[1:3]", "id([1, 2] + [3])", "sq(5)", "sq(40)", "sq(33) + [1]", "[] + []", "[[1], [2]] + [[3]]"}
+			"([1, 2, 3] + [4, 5])[1:3]", "id([1, 2] + [3])", "sq(5)", "sq(40)", "sq(33) + [1]", "[] + []", "[[1], [2]] + [[3]]", "[gi, gi + 1, gi + 2]", "[gi, 2, 3, gi, gi]", "[1, 2, gi]"}
 		arrUse := []string{"b + [5]", "b + [6]", "b + [7, 8]", "b[0:2]", "b[0:2] + [9]", "b[1:#b] + [9]", "[0] + b", "b + b", "b + []"}
 		strSrc := []string{"\"abc\"", "\"ab\" + \"c\"", "(\"ab\" + \"cd\")[0:3]", "toa(123) + \"4\""}
 		strUse := []string{"b + \"x\"", "b + \"y\"", "b[0:2]", "b[0:2] + \"z\"", "\"w\" + b", "b + b"}
